@@ -191,6 +191,17 @@ func (x *Exec) loadTyped(st *State, t types.Type, r *Term) *Term {
 	} else {
 		x.axiomIfClosed(x.typeInv(t, v, st, 1))
 	}
+	if v.Op == "select" && len(v.Args) == 2 && v.Args[0].IsLeaf() && strings.HasSuffix(v.Args[0].Op, "@0") && x.alloc0 != nil && !v.Bound {
+		// a reference read from the heap of the pre-state was allocated before the call
+		switch t.Underlying().(type) {
+		case *types.Pointer, *types.Map, *types.Chan:
+			if x.spec == 0 {
+				st.assume(Lt(v, x.alloc0))
+			} else {
+				x.axiomIfClosed(Lt(v, x.alloc0))
+			}
+		}
+	}
 	return v
 }
 
